@@ -410,6 +410,130 @@ def mac_input_rule(prog, chk, pid, an: ExcAnalysis):
         raise AnalysisError("expected at least the two cmac() call sites of the BF3 reader, found %d" % n_sites)
 
 
+def _reachable_lib(prog):
+    lib = {q: f for q, f in prog.funcs.items() if q.startswith("bec2format.")}
+    by_name: Dict[str, List[str]] = {}
+    for q, f in lib.items():
+        by_name.setdefault(f.name, []).append(q)
+    reach, todo = set(), [q for q in ENTRY if q in lib]
+    while todo:
+        q = todo.pop()
+        if q in reach:
+            continue
+        reach.add(q)
+        for c in ast.walk(lib[q].node):
+            if isinstance(c, ast.Call):
+                nm = c.func.attr if isinstance(c.func, ast.Attribute) else getattr(c.func, "id", None)
+                todo.extend(by_name.get(nm, []))
+                if nm and nm[:1].isupper():
+                    todo.extend(x for x in by_name.get("__init__", []) if x.endswith("." + nm + ".__init__"))
+    return lib, reach
+
+
+NONE_TOLERANT_CALLS = {"str", "repr", "print", "bool", "isinstance", "type", "id", "format", "hash", "list.append"}
+
+
+def optional_use_rule(prog, chk, pid):
+    """d.get(k) / d.pop(k, None) give None for a missing key.  In the parsers the keys come from the input text, so such a value must not reach an operation
+    that needs a real value (subscript, method call, iteration, arithmetic, an argument of a function whose parameter is not optional) unless a test on it
+    comes first: otherwise a missing parameter surfaces as TypeError / AttributeError instead of the format error the KeyError of d[k] is converted to."""
+    P = lambda s: "%s.%s" % (pid, s)
+    lib, reach = _reachable_lib(prog)
+    n_src = 0
+    for q in sorted(reach):
+        fi = lib[q]
+        if fi.parent is not None:
+            continue
+        try:
+            ex = Exec(prog, policy=lambda e, f, d: f.parent is not None or f.name == "<lambda>")
+            res = ex.run(fi)
+        except Exception:
+            continue
+        srcs = {}
+        for e in res.events:
+            if e.kind == "mcall" and e.d.get("result") is not None and ((e.d["name"] == "get" and len(e.d["args"]) == 1) or (e.d["name"] in ("get", "pop") and len(e.d["args"]) == 2 and is_const(e.d["args"][1]) and cval(e.d["args"][1]) is None)):
+                if e.d.get("ext_base") is None:
+                    srcs[unsnap(e.d["result"]).uid] = e
+            if e.kind == "mutate" and e.d.get("how") == "dictpop" and e.d.get("has_default"):
+                pass
+        if not srcs:
+            continue
+        n_src += len(srcs)
+
+        def tested(use_ev, r_uid):
+            known = [(f[1], bool(f[2])) for f in use_ev.ctx if f[0] == "if"] + [(c, bool(p_)) for c, p_ in (getattr(use_ev, "facts", ()) or ())]
+            for c, p_ in known:
+                r_ = rel(c, p_)
+                for a in ([r_] if r_[0] == "rel" else r_[1] if r_[0] in ("and",) else []):
+                    if a[0] != "rel":
+                        continue
+                    if a[1] == "Truthy" and unsnap(a[2]).uid == r_uid:
+                        return True
+                    if a[1] in ("IsNot", "NotEq") and a[3] is not None:
+                        for x, y in ((a[2], a[3]), (a[3], a[2])):
+                            if unsnap(x).uid == r_uid and (y is NONE or (is_const(unsnap(y)) and cval(unsnap(y)) is None)):
+                                return True
+            return False
+
+        for e in res.events:
+            uses = []  # (source uid, what)
+            if e.kind in ("call", "extcall", "dyncall"):
+                name = e.d["callee"].name if e.kind == "call" else e.d.get("name", "") if e.kind == "extcall" else "?"
+                for k, a in enumerate(e.d.get("args", ())):
+                    u = unsnap(a).uid
+                    if u in srcs:
+                        if e.kind == "extcall" and name in NONE_TOLERANT_CALLS:
+                            continue
+                        if e.kind == "call":
+                            cal = e.d["callee"]
+                            params = [p_ for p_ in cal.params if not (cal.cls is not None and p_ in ("self", "cls"))]
+                            an_ = cal.node.args
+                            allp = an_.posonlyargs + an_.args
+                            off = len(allp) - len(an_.defaults)
+                            pname = params[k] if k < len(params) else None
+                            pnode = next((x for x in allp if x.arg == pname), None)
+                            optional = False
+                            if pnode is not None:
+                                i_ = allp.index(pnode)
+                                dflt = an_.defaults[i_ - off] if i_ >= off else None
+                                optional = (isinstance(dflt, ast.Constant) and dflt.value is None) or (pnode.annotation is not None and "Optional" in ast.unparse(pnode.annotation))
+                            if optional:
+                                continue
+                        uses.append((u, "argument %d of %s(...)" % (k + 1, name)))
+            elif e.kind == "mcall":
+                u = unsnap(e.d["recv"]).uid
+                if u in srcs:
+                    uses.append((u, "receiver of .%s()" % e.d["name"]))
+                for a in e.d.get("args", ()):
+                    pass
+            elif e.kind in ("subscript", "slice"):
+                u = unsnap(e.d["base"]).uid
+                if u in srcs:
+                    uses.append((u, "subscripted"))
+            elif e.kind == "iter":
+                u = unsnap(e.d["iterable"]).uid
+                if u in srcs:
+                    uses.append((u, "iterated"))
+            elif e.kind == "unpack":
+                u = unsnap(e.d["value"]).uid
+                if u in srcs:
+                    uses.append((u, "unpacked"))
+            elif e.kind == "op" and e.d["op"] not in ("Eq", "NotEq", "Is", "IsNot", "In", "NotIn", "And", "Or", "Not"):
+                for a in e.d["args"]:
+                    u = unsnap(a).uid
+                    if u in srcs and not (e.d["op"] in ("In", "NotIn")):
+                        uses.append((u, "operand of %s" % e.d["op"]))
+            for u, what in uses:
+                src = srcs[u]
+                cons = "%s.%s(%s) used as %s" % (show(src.d["recv"], 2), src.d["name"], ", ".join(show(a, 2) for a in src.d["args"]), what)
+                if tested(e, u):
+                    chk.ok(P("optional-value-used"), fi.qualname, cons, e.where, "a test on the looked-up value comes first")
+                else:
+                    chk.fail(P("optional-value-used"), fi.qualname, cons, e.where,
+                             "the value is None when the key is missing (a parameter left out of the input text) and is used without a test: TypeError / AttributeError instead of a format error")
+    chk.info["optional_lookups_examined"] = n_src
+
+
 def run(prog, chk, tier):
     chk.explanation = ("Each parser entry point is interpreted with bec2format, the plug-in adapter and pyaes inlined (AES block functions summarised; the vendored ECC "
                        "decoders enter through the summary that C19 establishes). Every explicit raise and every implicit raiser of a fixed catalogue (subscripts typed by "
@@ -452,6 +576,7 @@ def run(prog, chk, tier):
     chk.info["unresolved_calls"] = an.unresolved[:20]
     typed_union_rule(prog, chk, "C14")
     mac_input_rule(prog, chk, "C14", an)
+    optional_use_rule(prog, chk, "C14")
     termination_rule(prog, chk, "C14", an)
     chk.require(not an.global_writes, "C14.no-global-writes", "reachable from the parser entry points", "stores to module globals / registry / module-level containers", an.global_writes[0][0] if an.global_writes else "",
                 "no function reachable from a parser writes library-global state (the register_* functions are the only writers and are unreachable)", "global state is written by %s" % (an.global_writes[:3],))
